@@ -186,7 +186,7 @@ var verifDebSlots = []string{"preinst", "postinst", "prerm", "postrm", "rules", 
 // Verif_C09_DebScripts: each configured script is in the control archive under
 // its dpkg name with its exact bytes and mode; unconfigured slots are absent.
 func Verif_C09_DebScripts() {
-	sc := scen.Payload(scen.Options{})
+	sc := scen.Payload(scen.Options{UmaskChoice: true})
 	mt := time.Unix(1500000000, 0).UTC()
 	var body [7][]byte
 	var set [7]bool
